@@ -1890,3 +1890,191 @@ func ruleElementOwners(c *Ctx, r *Report, allowed map[string]string) int {
 	}
 	return n
 }
+
+// ruleSwappedArgs (FWD-SWAP) — a function that has parameters named like two parameters of its callee (same
+// types) passes them crosswise: the callee's q1 receives the caller's q2 and the other way round.
+func ruleSwappedArgs(c *Ctx, r *Report, rule string, scope func(*ssa.Function) bool) int {
+	n := 0
+	for _, f := range c.RepoFuncs(nil) {
+		if f.Synthetic != "" || (scope != nil && !scope(f)) || strings.HasSuffix(c.Fset.Position(f.Pos()).Filename, "_test.go") {
+			continue
+		}
+		own := map[string]*ssa.Parameter{}
+		for _, p := range f.Params {
+			own[p.Name()] = p
+		}
+		for _, b := range f.Blocks {
+			for _, ins := range b.Instrs {
+				call, ok := ins.(*ssa.Call)
+				if !ok {
+					continue
+				}
+				cal := call.Call.StaticCallee()
+				if cal == nil || !inRepo(cal) || len(cal.Params) != len(call.Call.Args) {
+					continue
+				}
+				for i, qi := range cal.Params {
+					pi, ok := own[qi.Name()]
+					if !ok || qi.Name() == "" || qi.Name() == "_" || !types.Identical(pi.Type(), qi.Type()) {
+						continue
+					}
+					for j, qj := range cal.Params {
+						if j <= i {
+							continue
+						}
+						pj, ok := own[qj.Name()]
+						if !ok || !types.Identical(pj.Type(), qj.Type()) || !types.Identical(qi.Type(), qj.Type()) {
+							continue
+						}
+						n++
+						ai, aj := stripConv(call.Call.Args[i]), stripConv(call.Call.Args[j])
+						if ai == ssa.Value(pj) && aj == ssa.Value(pi) {
+							r.Bad(rule, fmt.Sprintf("%s→%s:%s<->%s", SSAFuncName(f), SSAFuncName(cal), qi.Name(), qj.Name()), c.Pos(call.Pos()),
+								fmt.Sprintf("the callee's %s receives this function's %s and its %s receives %s: the two same-typed arguments are swapped", qi.Name(), qj.Name(), qj.Name(), qi.Name()))
+						}
+					}
+				}
+			}
+		}
+	}
+	return n
+}
+
+// ruleStickyError (O-STICKY) — the slice readers record the first failed read and keep returning zero values;
+// a decoder that takes a bits.SliceReader therefore ends by looking at AccError(): every return that hands back a
+// decoded value with a nil error is the reader's accumulated error itself, or is dominated by a test of it, or
+// the function passes the reader on to a callee that returns the error (delegation).
+func ruleStickyError(c *Ctx, r *Report) int {
+	n := 0
+	for _, f := range c.RepoFuncs(IsLib) {
+		if f.Synthetic != "" || f.Parent() != nil || strings.HasSuffix(c.Fset.Position(f.Pos()).Filename, "_test.go") {
+			continue
+		}
+		var srPar *ssa.Parameter
+		for _, p := range f.Params {
+			if strings.HasSuffix(p.Type().String(), "bits.SliceReader") {
+				srPar = p
+			}
+		}
+		res := f.Signature.Results()
+		if srPar == nil || res.Len() < 2 || res.At(res.Len()-1).Type().String() != "error" {
+			continue
+		}
+		// box decoders only: (hdr BoxHeader, startPos uint64, sr bits.SliceReader) (Box, error)
+		hasHdr := false
+		for _, p := range f.Params {
+			if strings.HasSuffix(p.Type().String(), "mp4.BoxHeader") {
+				hasHdr = true
+			}
+		}
+		if !hasHdr {
+			continue
+		}
+		// does it read at all?
+		reads := false
+		for _, b := range f.Blocks {
+			for _, ins := range b.Instrs {
+				if call, ok := ins.(*ssa.Call); ok && call.Call.IsInvoke() && call.Call.Value == ssa.Value(srPar) && strings.HasPrefix(call.Call.Method.Name(), "Read") {
+					reads = true
+				}
+			}
+		}
+		if !reads {
+			continue
+		}
+		n++
+		key := SSAFuncName(f)
+		bad := ""
+		var pos token.Pos
+		for _, b := range f.Blocks {
+			for _, ins := range b.Instrs {
+				ret, ok := ins.(*ssa.Return)
+				if !ok {
+					continue
+				}
+				ev := ret.Results[len(ret.Results)-1]
+				if k, isC := ev.(*ssa.Const); !isC || k.Value != nil {
+					// a non-constant error: must derive from AccError or a callee's error — fine either way
+					continue
+				}
+				// nil error returned: is the value nil too (reject paths return nil, err — not this), or a success?
+				if k0, isC := ret.Results[0].(*ssa.Const); isC && k0.Value == nil {
+					continue
+				}
+				// success with literal nil: needs a dominating AccError test
+				tested := false
+				for d := b; d != nil; d = d.Idom() {
+					for _, i2 := range d.Instrs {
+						if call, ok := i2.(*ssa.Call); ok && call.Call.IsInvoke() && call.Call.Method.Name() == "AccError" {
+							tested = true
+						}
+					}
+				}
+				if !tested {
+					tested = stickyJustified(c, f, srPar, b) != ""
+				}
+				if !tested {
+					bad = "returns the decoded value with a literal nil error without looking at the reader's accumulated error"
+					pos = ret.Pos()
+				}
+			}
+		}
+		if bad != "" {
+			r.Bad("O-STICKY", key, c.Pos(pos), "the decoder "+bad+": a truncated box decodes 'successfully' with zero-filled fields")
+		} else {
+			r.OK("O-STICKY", key, c.Pos(f.Pos()), "every successful return carries or follows a test of the reader's accumulated error")
+		}
+	}
+	return n
+}
+
+// stickyExceptions: decoders whose documented behaviour is to accept a short payload.
+var stickyExceptions = map[string]string{
+	"mp4.DecodeMdatSR": "documented: no error is returned if not the full length is available (the error stays in the reader)",
+}
+
+// stickyJustified: why a successful return with a literal nil error cannot hide a failed read.
+func stickyJustified(c *Ctx, f *ssa.Function, sr *ssa.Parameter, retBlock *ssa.BasicBlock) string {
+	if why, ok := stickyExceptions[SSAFuncName(f)]; ok {
+		return why
+	}
+	// (a) a dominating rejecting test on the declared box size: the reads are covered by an exact-size / minimum-size check
+	for d := retBlock; d != nil; d = d.Idom() {
+		id := d.Idom()
+		if id == nil || len(id.Instrs) == 0 {
+			continue
+		}
+		ifi, ok := id.Instrs[len(id.Instrs)-1].(*ssa.If)
+		if !ok {
+			continue
+		}
+		if !(blockRejects(id.Succs[0]) || blockRejects(id.Succs[1])) {
+			continue
+		}
+		sl := backSlice(c, ifi.Cond, 1)
+		if sliceHas(sl, "field", "BoxHeader.Size") || sliceHas(sl, "call", "BoxHeader.payloadLen") || sliceHas(sl, "field", "BoxHeader.Hdrlen") {
+			return "the declared box size is validated against what is read"
+		}
+	}
+	// (b) children are decoded with the container helpers, which compare positions with the declared end
+	if len(callsIn(f, "mp4.DecodeContainerChildrenSR", false)) > 0 {
+		return "children are decoded by DecodeContainerChildrenSR, which rejects a start position beyond the declared end"
+	}
+	// (c) the payload is taken as one ReadBytes and parsed by a callee whose error is returned
+	only := true
+	n := 0
+	for _, b := range f.Blocks {
+		for _, ins := range b.Instrs {
+			if call, ok := ins.(*ssa.Call); ok && call.Call.IsInvoke() && call.Call.Value == ssa.Value(sr) && strings.HasPrefix(call.Call.Method.Name(), "Read") {
+				n++
+				if call.Call.Method.Name() != "ReadBytes" {
+					only = false
+				}
+			}
+		}
+	}
+	if only && n == 1 {
+		return "the payload is read as one block and parsed by a callee whose error is returned"
+	}
+	return ""
+}
